@@ -10,7 +10,7 @@ use crate::runner::{Ctx, Outcome, Property, Sub};
 use crate::sem::{Bin, Ty};
 use crate::tape::{hash_str, Tape};
 
-const NUM_OK: &[&str] = &["1", "0", "-3", "2.5", " 7 ", "1E1", "1e2", "1D2", "1d-1", "&H10", "&hff", "&H1D", "&hbad", "&HD", "&H1E", "&He1", "&H7FFF", "&17", "&77777", "&17", "", "  ", "+5", ".5", "5.", "32767", "-32768", "1.5!", "2#", "3%", "1E+2", "0.1", "12345678.9"];
+const NUM_OK: &[&str] = &["-.5", "-0.25", "10.9", "11", ".9", "-1", "10", "1", "0", "-3", "2.5", " 7 ", "1E1", "1e2", "1D2", "1d-1", "&H10", "&hff", "&H1D", "&hbad", "&HD", "&H1E", "&He1", "&H7FFF", "&17", "&77777", "&17", "", "  ", "+5", ".5", "5.", "32767", "-32768", "1.5!", "2#", "3%", "1E+2", "0.1", "12345678.9"];
 const NUM_BAD: &[&str] = &["x", "1 2", "1,", "12abc", "--1", "1E", ".", "&H", "&8", "&HG", "1.2.3", "\"5\"", "1/2", "é", "$5", "1E5E", "0x10"];
 const INT_RANGE: &[&str] = &["32768", "-32769", "40000", "1E10", "99999", "32767.5", "-32768.5", "NAN", "nan", "-NAN", "INF", "-inf", "+Inf", "1E39", "1D400"];
 const STR_FIELDS: &[&str] = &["HELLO", "x", "\"a,b\"", " pad ", "é", "", "\"\"", "\" lead\"", "\"in \"\" side\"", "\"", "a\"b", "\"open", "日本 語", "1,5", "  \"q\"  ", "'single'"];
@@ -31,11 +31,16 @@ fn build_input(t: &mut Tape) -> Built {
     let names: &[(&str, Ty)] = &[("A", Ty::Sng), ("B%", Ty::Int), ("C#", Ty::Dbl), ("S$", Ty::Str), ("T$", Ty::Str), ("D!", Ty::Sng), ("I%", Ty::Int), ("X", Ty::Sng)];
     for k in 0..n {
         // an array target whose subscript uses an earlier Integer target (kept in range by AND 7)
-        let earlier_int = targets.iter().find(|(lv, ty)| *ty == Ty::Int && matches!(lv, Lval::Var(_))).map(|(lv, _)| lv.name().clone());
+        let want_float = t.chance(1, 3);
+        let earlier_int = targets
+            .iter()
+            .find(|(lv, ty)| matches!(lv, Lval::Var(_)) && if want_float { *ty == Ty::Sng || *ty == Ty::Dbl } else { *ty == Ty::Int })
+            .map(|(lv, _)| lv.name().clone());
         if k > 0 && t.chance(1, 4) {
             if let Some(i) = earlier_int {
                 let (arr, ty) = *t.pick(&[("Q", Ty::Sng), ("R%", Ty::Int), ("U$", Ty::Str)]);
-                let sub = if t.chance(1, 2) { E::Bin(Bin::And, Box::new(E::Var(i)), Box::new(E::Lit("7".into()))) } else { E::Var(i) };
+                // (a float subscript is floored: -.5 is -1 and out of range, 10.9 is 10)
+                let sub = if !want_float && t.chance(1, 2) { E::Bin(Bin::And, Box::new(E::Var(i)), Box::new(E::Lit("7".into()))) } else { E::Var(i) };
                 targets.push((Lval::Elem(Name::new(arr), vec![sub]), ty));
                 continue;
             }
@@ -75,7 +80,14 @@ fn field_for(t: &mut Tape, ty: Ty, good: bool) -> String {
     }
     match ty {
         Ty::Str => {
-            if good || t.chance(1, 2) {
+            if good && t.chance(1, 12) {
+                // long but legal: the limit is 255 characters, whatever they take in bytes
+                match t.below(3) {
+                    0 => "é".repeat(130),
+                    1 => "日".repeat(255),
+                    _ => format!("\"{}\"", "ß".repeat(200)),
+                }
+            } else if good || t.chance(1, 2) {
                 t.pick(STR_FIELDS).to_string()
             } else {
                 "é".repeat(256)
